@@ -322,10 +322,21 @@ def run(chk, repo, tier):
     if mh is None:
         raise AnalysisError('ModelHash.__init__ not found')
     cfg = CFG(mh.node)
+    # the encoding site: the statement where the model content becomes the hashed bytes -- a direct `<model>.to_dict()` or a
+    # call of a helper of the module whose body does it (`_encode(model)`)
+    hm = mh.module
+
+    def serialises(c):
+        if isinstance(c.func, ast.Attribute) and c.func.attr == 'to_dict':
+            return True
+        g = hm.functions.get(dotted(c.func) or '') if isinstance(c.func, ast.Name) else None
+        return g is not None and any(isinstance(x, ast.Call) and isinstance(x.func, ast.Attribute) and x.func.attr == 'to_dict'
+                                     for x in ast.walk(g.node))
     enc = [n for n in cfg.nodes.values() if n.ast is not None and n.kind == 'stmt'
-           and any(unparse(c.func) == '_encode' for c in [x for x in ast.walk(n.ast) if isinstance(x, ast.Call)])]
+           and any(serialises(c) for c in [x for x in ast.walk(n.ast) if isinstance(x, ast.Call)])]
     if not enc:
-        raise AnalysisError('H5: _encode(model) call not found in ModelHash.__init__')
+        raise AnalysisError('H5: serialisation of the model (to_dict, directly or through a helper) not found in '
+                            'ModelHash.__init__')
 
     def repl_nodes(kws):
         out = []
@@ -450,7 +461,9 @@ def run_h8_h10(chk, repo):
         return False
     for r in ctor:
         for fld in ('init', 'lower', 'upper'):
-            args = r.ast.value.args
+            args = reach.positional_args(cfg, r.id, r.ast.value)
+            if args is None:
+                raise AnalysisError('H8: starred argument of the constructor call not resolved')
             names_ = [p for p in cr.params if p != 'cls']
             arg = args[names_.index(fld)] if fld in names_ and names_.index(fld) < len(args) else next(
                 (k.value for k in r.ast.value.keywords if k.arg == fld), None)
